@@ -15,7 +15,7 @@ ID = "C16"
 RULE = (
     "grids (boundary edges, closed, n_face<>n_node, antimeridian, pole) under every single index deviation (node relabelling, face order, "
     "start corner) x provenance {derived centres, face centres supplied by the source (displaced from the corner mean), distances supplied by "
-    "the source} x data {every unit impulse, identity, generic, ones(constant), int} on faces and on nodes x leading dims {(), (2), (2,3)} x "
+    "the source, an MPAS source (harness-written) shipping dvEdge/dcEdge, its own edge order and cell centres} x data {every unit impulse, identity, generic, ones(constant), int} on faces and on nodes x leading dims {(), (2), (2,3)} x "
     "normalize {False, True}. non-trivial = grid with both interior and boundary edges or closed grid with >= 6 faces; distinct = (mesh, deviation, provenance)"
 )
 ASSUMPTIONS = [
@@ -37,8 +37,8 @@ TOL = 1e-9
 def cases(tier):
     out = []
     for name in QUICK if tier == "quick" else THOROUGH:
-        for prov in ("derived", "centres", "distances"):
-            out.append({"mesh": name, "prov": prov, "cap": 12 if tier == "quick" else None})
+        for prov in ("derived", "centres", "distances", "mpas"):
+            out.append({"mesh": name, "prov": prov, "cap": (12 if prov != "mpas" else 4) if tier == "quick" else None})
     return out
 
 
@@ -47,7 +47,7 @@ def selftest_case(tier):
 
 
 def warmup(tier):
-    for p in ("derived", "centres", "distances"):
+    for p in ("derived", "centres", "distances", "mpas"):
         run_case({"mesh": "single3", "prov": p, "cap": 2})
         run_case({"mesh": "isolated", "prov": p, "cap": 2})
 
@@ -73,6 +73,14 @@ def _mk(m, prov):
         sup["face_lon"], sup["face_lat"] = flon, flat
         g = ux.Grid.from_topology(lon.copy(), lat.copy(), m.table(), fill_value=build.FILL, face_lon=flon.copy(), face_lat=flat.copy())
         return g, sup
+    if prov == "mpas":
+        # MPAS source written by the harness: ships dvEdge / dcEdge (metres on the MPAS sphere), its own edge order and cell centres
+        from vf.alpha import dialects as D
+
+        ds, exp = D.mpas(m, optional="all")
+        sup["edge_node_distances"] = np.asarray(ds["dvEdge"].values, dtype=float).copy()
+        sup["edge_face_distances"] = np.asarray(ds["dcEdge"].values, dtype=float).copy()
+        return ux.open_grid(ds), sup
     if prov == "distances":
         g0 = build.grid(m)
         en = np.asarray(g0.edge_node_connectivity.values).copy()
@@ -131,7 +139,7 @@ def run_case(case):
         interior = ef[:, 1] != build.FILL
         P = np.array(m.points)
         # -- distances -------------------------------------------------------
-        if prov == "distances":
+        if prov in ("distances", "mpas"):
             if not np.array_equal(dn, sup["edge_node_distances"]):
                 bad("edge_node_distances", "c16:supplied-node-dist-not-passed-through", "source-supplied edge_node_distances were replaced: %r" % dn[:4].tolist())
             if not np.array_equal(df, sup["edge_face_distances"]):
@@ -206,7 +214,7 @@ def run_case(case):
         except Exception as e:
             bad("state", "c16:reread-raises:%s" % type(e).__name__, repr(e))
         # and a fresh grid on which gradient() runs *before* the tables are read
-        if prov != "distances":
+        if prov not in ("distances", "mpas"):
             try:
                 g3, _ = _mk(m, prov)
                 build.uxda(g3, build.generic_field(m.n_face), "n_face", name="t").gradient()
